@@ -112,8 +112,8 @@ fn owns(id: &str, rule: &str) -> bool {
 fn rule_text(id: &str) -> &'static str {
     match id {
         "C22" => "1-3 nodes of the real controller/bucket/monitor/client/metadata code over the real engine, 1-2 topics, rollover thresholds 1-4 entries, monitor interval 10 ms-10 s, 2-6 client tasks connected to arbitrary nodes issuing PUT/GET through the real text protocol with unique payloads; consensus stub faults while the workload runs (proposal latency/failure, follower apply lag up to 2 s, snapshot catch-up, RPC delay/loss/duplication), then faults stop and GETs drain every topic round-robin on all nodes; oracle over the history stamped with executor step numbers: every acknowledged payload returned by exactly one GET, none twice, per-client acknowledgement order respected, EMPTY only when nothing acknowledged is pending; distinct = (configuration, history, schedule hash); non-trivial = at least one GET delivered a payload",
-        "C23" => "same runs as C22; the engine's append hook reports every write with the node label of the task performing it, and at that instant the harness reads that node's applied Metadata: the segment must be open and owned by this node; non-trivial = at least one write was checked",
-        "C24" => "single node; 1-3 connections, each a concatenation of valid frames (REGISTER, PUT with arbitrary UTF-8 payloads incl. multi-byte, embedded/leading spaces, control characters, trailing whitespace on the line; GET; STATE; METRICS), unknown verbs, missing arguments, zero length, oversized length with the announced body present (the body looks like further frames), invalid UTF-8, truncated final frame; the simulated socket delivers the stream in seeded chunks (1 byte ... 70 kB) and closes after the last byte; oracle: a reference framer over the same bytes gives the expected number, order and class of responses, matched positionally; each GET returns the PUT payload byte-identical; non-trivial = responses were received",
+        "C23" => "same runs as C22; the engine's append hook reports every write with the node label of the task performing it, and at that instant the harness reads that node's applied Metadata: the segment must be open and owned by this node; guarded observation hooks give the provenance of the lease check that let each write through (fact lease_check); non-trivial = at least one write was checked",
+        "C24" => "single node; 1-3 connections, each a concatenation of valid frames (REGISTER, PUT with arbitrary UTF-8 payloads incl. multi-byte, embedded/leading spaces, control characters, trailing whitespace on the line, one in six 120-60000 bytes long with multi-byte characters across power-of-two offsets; GET; STATE; METRICS), unknown verbs, missing arguments, zero length, oversized length with the announced body present (the body looks like further frames), invalid UTF-8, truncated final frame; the simulated socket delivers the stream in seeded chunks (1 byte ... 70 kB), read() returns seeded short counts, and the socket closes after the last byte; oracle: a reference framer over the same bytes gives the expected number, order and class of responses, matched positionally; each GET returns the PUT payload byte-identical; non-trivial = responses were received",
         _ => "3 replicas of the real Metadata state machine behind the consensus stub; proposer tasks on every node issue seeded CreateTopic (new and duplicate), RolloverTopic (fresh, stale, unknown topic, counts 0..5), UpsertNode, and byte strings that are truncated, bit-flipped or random encodings; proposal failure, leader change, apply lag and snapshot catch-up injected; after every apply on every replica: segments exactly 1..current, one leader per segment, leader of the open segment = topic leader, cumulative offset = sum of sealed counts, sealed (count, leader) pairs never change; at the end replicas with the same applied prefix are equal; no panic; non-trivial = invariants were evaluated on at least one topic state",
     }
 }
